@@ -31,6 +31,9 @@ for sid in sorted(os.listdir(os.path.join(V, "seeded"))):
     inp = re.findall(r"failing input: (.*)", out)
     verdict = {0: "MISSED (exit 0)", 1: "detected (VIOLATION)", 2: "undecided (exit 2)"}.get(p.returncode, str(p.returncode))
     how = "; ".join(sorted({f"{o} [{k}]" for o, k in obl})) or ("bounded stand-in on the real crate" if bounded else "")
+    always = re.findall(r"-- bounded stand-in (\w+) found a failing input", out)
+    if not how and always:
+        how = "bounded stand-in on the real crate (no contract reaches the changed code): " + ", ".join(sorted(set(always)))
     if bounded and obl == []:
         how = "verifier could not process the changed code (" + "; ".join(re.findall(r"UNDECIDED property=\S+ reason=(.*)", out))[:160] + "); bounded stand-in found a failing input"
     meta["detected_by"] = {"check": f"./check {prop}", "exit": p.returncode, "verdict": verdict, "failed_obligations": how, "example_input": (inp[0][:300] if inp else None)}
